@@ -365,8 +365,8 @@ def signature(step, reads, observed, mdl):
         return 'C16/%s/%s/%s' % (name, where, clause)
     if k == 'before':
         where = 'accepted_at_or_after_ts' if observed == ACCEPT else 'rejected_before_ts'
-        if clause.startswith('slack_tripped'):
-            clause = 'slack_tripped'
+        if clause in ('slack_tripped_on_all_reads', 'slack_newly_tripped_on_a_later_read'):
+            clause = 'slack_tripped'     # i.e. tripped at the read the check made
         return 'C16/before_lock/%s/%s' % (where, clause)
     if observed == ACCEPT:
         where = 'accepted_before_begin' if t < step['c'] else 'accepted_at_or_after_end'
